@@ -266,6 +266,8 @@ def rnd_settings(rng):
             if rng.random() < 0.3:
                 lines.append('')
             st[which + '_text'] = eol.join(lines)
+        elif not st[which] and rng.random() < 0.2:
+            st[which + '_text'] = rng.choice(['; nothing to do here\n', '\n\n', '   \r\n;x', ';'])      # a script of comments and blank lines only: no script
     return st
 
 
